@@ -67,7 +67,13 @@ def run_case(check, case, keep_events=False, patience=1):
                 ctx.note("run abandoned after %d s (size, not a verdict)" %
                          limit)
         except DrawBudgetExceeded as d:
-            viol = Violation("progress/draw-budget", str(d))
+            if getattr(check, "DRAW_BUDGET_IS_VIOLATION", True):
+                viol = Violation("progress/draw-budget", str(d))
+            else:
+                # (as for the wall clock: the property says nothing about
+                # how long a legitimately huge request may take)
+                ctx.note("run abandoned after its budget of random draws "
+                         "(size, not a verdict)")
         except MemoryError:
             # (memory exhausted while the harness itself was at work - the
             # checks catch and judge what the code under test raises: the
